@@ -3621,9 +3621,15 @@ where
         Value::Float(_f) => {
           match mt {
             7u8 => match constraint {
+              // Additional information 25, 26 and 27 is a half-, single- and
+              // double-precision float (RFC 8610 Appendix D: float16 = #7.25,
+              // float32 = #7.26, float64 = #7.27); as with those names, the width
+              // the item was encoded in is not part of its value
+              Some(c) if c.is_literal(25u64) || c.is_literal(26u64) || c.is_literal(27u64) => {
+                return Ok(())
+              }
               Some(_c) => {
                 // Float values don't match specific simple value constraints like #7.32
-                // They only match the general #7 (no constraint)
                 self.add_error(format!(
                   "expected simple value with constraint {} (#{}.{}), got {:?}",
                   _c, mt, _c, self.cbor
